@@ -180,15 +180,18 @@ def handle (req : Sexp) : Sexp :=
       | some is => .list ((removeDiag r is).map dnodeS)
       | none => bad
     | _, _ => bad
-  | .list [.atom "bupdate", r, ps, b] =>
-    match drec? r, oparams? ps, b.asBool? with
-    | some r, some ps, some b =>
-      if !dAllHaveInit r then .list [.atom "err", .atom "NoInit"]
-      else if updBlockIndexError r ps then .list [.atom "err", .atom "IndexError"]
-      else match updBlock r ps b with
-        | .ok r' => .list [.atom "ok", .list (r'.map dnodeS)]
-        | .error _ => .list [.atom "err", .atom "ModelSyntaxError"]
-    | _, _, _ => bad
+  | .list [.atom "bupdate", r, ws, ps, os, b] =>
+    match drec? r, ws.asList?, oparams? ps, os.asList?, b.asBool? with
+    | some r, some ws, some ps, some os, some b =>
+      match ws.mapM Sexp.asAtom?, os.mapM val? with
+      | some ws, some os =>
+        if !dAllHaveInit r then .list [.atom "err", .atom "NoInit"]
+        else if updBlockIndexError r (blockArray r ws ps os) then .list [.atom "err", .atom "IndexError"]
+        else match updBlock r ws ps os b with
+          | .ok r' => .list [.atom "ok", .list (r'.map dnodeS)]
+          | .error _ => .list [.atom "err", .atom "ModelSyntaxError"]
+      | _, _ => bad
+    | _, _, _, _, _ => bad
   | .list [.atom "bfix", r] =>
     match drec? r with
     | some r => match blockFix r with
